@@ -19,7 +19,7 @@ import ast
 from .. import inline
 from ..facts import call_name, norm
 from ..linters import Linters
-from ..util import is_call_named
+from ..util import alpha, is_call_named
 
 IGN = "src.linter_config.ignore"
 # predicate sites that are fine although the function itself does not relativise, each with the reason
@@ -138,7 +138,7 @@ def check(run, ctx):
                 if t_ in seen_txt:
                     continue
                 seen_txt.add(t_)
-                run.finding(Q2, sym, f"absolute-path-predicate:{t_}", f"{f.qual}: `{t_}` inspects the file path as spelled by the caller (absolute when the target was absolute), so directory names leading to the project decide the verdict", f.loc)
+                run.finding(Q2, sym, f"absolute-path-predicate:{alpha(f.node, h)}", f"{f.qual}: `{t_}` inspects the file path as spelled by the caller (absolute when the target was absolute), so directory names leading to the project decide the verdict", f.loc)
     run.require(n_sites >= 15, f"only {n_sites} path-predicate functions found")
 
     Q4 = run.rule("Q4", "path-keyed tables: the key written and the key looked up go through the same canonicalisation (resolve/absolute/relative_to/...)", floor=3,
